@@ -5,10 +5,18 @@
    The proof: every parse stage looks only at a prefix of the buffer (stage_ext: "not enough bytes" is a no-op, a successful
    stage and an error are unaffected by bytes that arrive later), the stage loop terminates within its fuel for every buffer
    (get_next_message_terminates), hence draining-then-more-bytes equals draining with the bytes already there (induction
-   over the relational driving loop).  Sessions: their handle_input is this loop composed with the message handlers and the
-   acknowledgement counter; for them the statement (modulo acknowledgements, DESIGN 10.4) is decided by the correspondence
-   check on pairs of partitions (component `pair`). *)
-From RML Require Import Model.Base Model.Chunk Model.ChunkDe Proofs.ChunkDeProofs Proofs.ChunkDeFuel Proofs.ChunkEndToEnd.
+   over the relational driving loop).  Sessions (proved, SessionPartition.v / ClientPartition.v): for a server or client session with a quiescent deserializer, ANY two
+   partitions of the same byte stream fed call after call to handle_input (same clock reading) give the same verdict - completed, or
+   the same error at the same message; when the stream is accepted, exactly the same events in the same order and the same protocol
+   state; when it is rejected, what either partition delivered before the failing call is a prefix of one common event sequence
+   (DESIGN 10.2).  Outbound packets are not compared byte for byte: acknowledgements are emitted as a function of call sizes (C17,
+   DESIGN 10.4) and shift the header compression of later packets; that responses decode to the same messages is decided by the
+   correspondence check on pairs of partitions (component `pair`).
+   Proof: handlers commute with bytes still waiting in the deserializer's buffer (h_message_sext), the acknowledgement prelude only
+   changes the serializer and the counter, which no handler's events, verdict or protocol state depend on (h_message_similar), and the
+   message loop is the deserializer's driving loop with the handlers in place of the bare chunk-size driver. *)
+From RML Require Import Model.Base Model.Chunk Model.ChunkDe Model.Server Model.Client Proofs.ChunkDeProofs Proofs.ChunkDeFuel Proofs.ChunkEndToEnd
+  Proofs.ServerProofs Proofs.InteropProofs Proofs.SessionPartition Proofs.ClientPartition.
 Local Open Scope N_scope.
 
 Theorem C15_deserializer_partition_independent : forall p1 p2 s1 ms1 r1 s2 ms2 r2,
@@ -33,6 +41,28 @@ Theorem C15_partition_independent_from_any_quiescent_state : forall s p1 p2 acc 
   feeds s p1 acc s1 ms1 r1 -> feeds s p2 acc s2 ms2 r2 -> ms1 = ms2 /\ r1 = r2.
 Proof. exact partition_independent. Qed.
 
+Theorem C15_server_session_partition_independent : forall s p1 p2 clock,
+  ser_ok (sv_ser s) -> G (sv_de s) = (sv_de s, DNone) -> concat p1 = concat p2 ->
+  let r1 := feed_server s p1 clock [] in
+  let r2 := feed_server s p2 clock [] in
+  snd r1 = snd r2 /\
+  (exists common d1 d2, common = snd (fst r1) ++ d1 /\ common = snd (fst r2) ++ d2 /\
+     (snd r1 = VOk -> d1 = [] /\ d2 = [] /\ same_core (fst (fst r1)) (fst (fst r2)))).
+Proof. exact server_partition_independent. Qed.
+
+Theorem C15_client_session_partition_independent : forall s p1 p2 clock,
+  ser_ok (cl_ser s) -> G (cl_de s) = (cl_de s, DNone) -> concat p1 = concat p2 ->
+  let r1 := feed_client s p1 clock [] in
+  let r2 := feed_client s p2 clock [] in
+  snd r1 = snd r2 /\
+  (exists common d1 d2, common = snd (fst r1) ++ d1 /\ common = snd (fst r2) ++ d2 /\
+     (snd r1 = CVOk -> d1 = [] /\ d2 = [] /\ csame_core (fst (fst r1)) (fst (fst r2)))).
+Proof. exact client_partition_independent. Qed.
+
+(* handlers commute with bytes that arrive later / do not depend on serializer and acknowledgement state *)
+Theorem C15_server_handler_commutes : forall x s p clock, commutes x (h_message (sext s x) p clock) (h_message s p clock).
+Proof. exact h_message_sext. Qed.
+
 Theorem C15_stage_prefix_stable : forall st x,
   match run_stage st with
   | Ok (Success, st', om) => run_stage (ext st x) = Ok (Success, ext st' x, om)
@@ -49,5 +79,8 @@ Print Assumptions C15_deserializer_partition_independent.
 Print Assumptions C15_deserializer_partition_independent_total.
 Print Assumptions C15_driving_loop_fuel_adequate.
 Print Assumptions C15_partition_independent_from_any_quiescent_state.
+Print Assumptions C15_server_session_partition_independent.
+Print Assumptions C15_client_session_partition_independent.
+Print Assumptions C15_server_handler_commutes.
 Print Assumptions C15_stage_prefix_stable.
 Print Assumptions C15_call_terminates.
